@@ -91,6 +91,9 @@ func runC12(r *Run) {
 	r.Has(tg, "big.NewInt(0).Quo($two64,big.NewInt(conv:int64(a0)))", "2^64 / d")
 	r.Has(tg, "$two64.Sub($two64,big.NewInt(0).Quo($two64,big.NewInt(conv:int64(a0))))", "2^64 − 2^64/d")
 	r.Has(tg, "binary.LittleEndian.PutUint64(new([8]byte)[:],$two64.Uint64())", "target bytes little-endian, matching greaterDifficulty's scan from byte 7")
+	for _, m := range []string{"Sub", "Quo", "Exp"} {
+		r.CallCount(tg, "(*math/big.Int)."+m, 1, "the target is exactly 2^64 − 2^64/d: one Exp, one Quo, one Sub on the accumulator")
+	}
 	r.Branch(tg, "eq(0,a0)", "difficulty 0 has the zero target (and is never consulted: verifier.pow gates on Difficulty != 0)")
 	r.Branch("pow.greaterDifficulty", "lt(a1[iter],a0[iter])", "a hash byte above the target byte passes")
 	r.Branch("pow.greaterDifficulty", "le(0,iter)", "scan runs down to byte 0")
